@@ -631,6 +631,20 @@ fn jobs(args: &[String]) {
                         rec["final"] = res_json(guarded(|| v.verify(max).map_err(|e| e.to_string())));
                     }
                     "signal" => rec["final"] = run_signal(v, &job, &rf),
+                    // white-box probe: snapshot a scheduler AFTER its root VM has terminated, resume it and ask again
+                    "termsnap" => {
+                        let (_, _, group) = v.groups_with_type().next().unwrap();
+                        let r = guarded(|| {
+                            let mut sch = v.create_scheduler(group).map_err(|e| e.to_string())?;
+                            let first = sch.run(ckb_script::RunMode::LimitCycles(u64::MAX)).map_err(|e| format!("{:?}", e))?;
+                            let full = sch.suspend().map_err(|e| format!("{:?}", e))?;
+                            let mut sch2 = v.resume_scheduler(group, &full).map_err(|e| e.to_string())?;
+                            let second = sch2.run(ckb_script::RunMode::LimitCycles(u64::MAX)).map_err(|e| format!("{:?}", e))?;
+                            Ok(json!({"before": {"exit": first.exit_code, "cycles": first.consumed_cycles},
+                                      "after": {"exit": second.exit_code, "cycles": second.consumed_cycles}}))
+                        });
+                        rec["termsnap"] = match r { Ok(v) => v, Err(e) => json!({"error": e}) };
+                    }
                     other => rec["error"] = json!(format!("unknown mode {other}")),
                 }
             }
